@@ -68,10 +68,11 @@ def strip_rust(src):
 
 
 def cut_tests(src):
-    """Drop `#[cfg(test)] mod ... { ... }` blocks and `#[test] fn` items (brace matched)."""
+    """Drop `#[cfg(test)]` / `#[cfg(scylla_verif)]` mod ... { ... } blocks and `#[test] fn` items (brace matched):
+    tests and verification hooks are not part of the decoders."""
     res = src
     while True:
-        m = re.search(r"#\[(cfg\(test\)|test)\]\s*(?:#\[[^\]]*\]\s*)*(?:pub(?:\([^)]*\))?\s+)?(mod|fn)\s+\w+[^{;]*\{", res)
+        m = re.search(r"#\[(cfg\(test\)|test|cfg\(scylla_verif\))\]\s*(?:#\[[^\]]*\]\s*)*(?:pub(?:\([^)]*\))?\s+)?(mod|fn)\s+\w+[^{;]*\{", res)
         if not m:
             return res
         depth, j = 1, m.end()
@@ -205,7 +206,9 @@ SPEC = {
              "encoder (seeded, incl. types nested 10..10^5); T = strict prefixes of W (every cut point for short frames); "
              "U = body cut with a consistent header length; M = field mutations of W (4/2-byte boundary values at random "
              "offsets, +-1, bit flips, header fields, insert/delete, random runs); C = LZ4/Snappy-compressed variants and "
-             "their mutations / wrong codec; R = random bytes, plain and behind a valid header. On every accepted frame also: "
+             "their mutations / wrong codec; R = random bytes, plain and behind a valid header; P = a PREPARED frame followed by a "
+             "Rows frame decoded with the first one's result metadata as cached_metadata (skip-metadata path), cuts and mutations. "
+             "On every accepted frame also: "
              "typed rows (rows_iter::<Row>() over CqlValue, position of the first failure) and the tablet routing payload "
              "(RawTablet::from_custom_payload via hook H6). non-trivial = every case; "
              "distinct = distinct case lines"),
@@ -218,7 +221,6 @@ SPEC = {
     ],
     "assumptions": [
         "custom-type strings with non-ASCII characters are not modelled (char::is_alphanumeric / is_whitespace tables): the model declines, the tie then only checks that the implementation neither crashes nor over-allocates",
-        "cached result metadata (skip-metadata optimisation) is not exercised: Response::deserialize is called with cached_metadata = None",
         "absence of panics in the Rust code for ALL inputs is not a theorem; it is supported by the tie",
     ],
     "post": post,
